@@ -48,7 +48,7 @@ def readme():
                 '| name | property | file changed | caught by quick check | violation signatures | first result / what was strengthened |\n'
                 '|---|---|---|---|---|---|\n')
         for m in rows:
-            f.write(f"| {m['name']} | {m['property']} | {', '.join(m['files'])} | {('n/a: ' + m['superseded']) if m.get('superseded') else 'yes' if m['check']['caught'] else 'NO'} | "
+            f.write(f"| {m['name']} | {m['property']} | {', '.join(m['files'])} | {('n/a: ' + m['superseded']) if m.get('superseded') else ('NO: ' + m['not_caught']) if m.get('not_caught') else 'yes' if m['check']['caught'] else 'NO'} | "
                     f"{'; '.join(m['check']['violations'][:4])} | {m.get('note', '')} |\n")
         f.write('\n## What each change needs to manifest\n\n')
         for m in rows:
